@@ -39,10 +39,12 @@ def setup_engine(seed=0):
     E.classes.open_bases = set([bb.Struct, bb.Union])
     from . import symclass
     symclass.install(E, bb)
+    from . import genmodel
+    genmodel.install(E, bb, bv)
     import spec.runtime as S
 
     def m_re_valid(E, args, kw):
-        f = z3.Function('ReValid', z3.StringSort(), z3.BoolSort())
+        f = z3.Function('ReValid', vals.STR, z3.BoolSort())
         return E.bool_sv(f(Val.s(E.lift(args[0]))))
     E.models[S.re_compile_ok] = m_re_valid
     from . import builtins_model as B
@@ -50,11 +52,27 @@ def setup_engine(seed=0):
     def m_is_slot_name(E, args, kw):
         t = E.lift(args[0])
         name = 'Tmpl_' + B._h(repr(('_', '_value')))
-        f = z3.Function(name, z3.StringSort(), z3.StringSort())
-        inv = z3.Function(name + '_inv', z3.StringSort(), z3.StringSort())
+        f = z3.Function(name, vals.STR, vals.STR)
+        inv = z3.Function(name + '_inv', vals.STR, vals.STR)
         n = z3.simplify(Val.s(t))
         return E.bool_sv(z3.And(Val.is_VStr(t), z3.simplify(n == f(inv(n)))))
     E.models[S.is_slot_name] = m_is_slot_name
+
+    # the table predicates of generated classes: symbolically "is a generated
+    # struct / union class" -- the tables themselves are the built-in model
+    # (pyvc/genmodel.py); natively the SpecPy text is evaluated on the real tables
+    def gen_class_pred(base):
+        def m(E, args, kw):
+            t = E.lift(args[0])
+            c = Val.cid(t)
+            E.assumptions.add('reflection tables of generated classes are well formed (GEN-WF; built-in model '
+                              'pyvc/genmodel.py, checked on generated code by the bounded stand-in)')
+            return E.bool_sv(z3.And(Val.is_VClass(t), c > I.SYM_CLASS_BASE,
+                                    E.classes.Sub(c, z3.IntVal(E.classes.cid(base)))))
+        return m
+    E.models[S.wf_struct_def] = gen_class_pred(bb.Struct)
+    E.models[S.wf_tree_def] = gen_class_pred(bb.Struct)
+    E.models[S.wf_union_def] = gen_class_pred(bb.Union)
 
     def m_field_index(E, args, kw):
         D, n = args
@@ -161,7 +179,7 @@ def make_param(E, p, name, kind):
     if isinstance(kind, CT.Int):
         return I.T(Val.VInt(z3.Const('p_' + name, z3.IntSort())))
     if isinstance(kind, CT.Str):
-        return I.T(Val.VStr(z3.Const('p_' + name, z3.StringSort())))
+        return I.T(Val.VStr(z3.Const('p_' + name, vals.STR)))
     if isinstance(kind, CT.Obj):
         oid = z3.Const('p_' + name + '_oid', z3.IntSort())
         p.assume(z3.And(oid >= 1, oid < I.ALLOC_BASE))
@@ -318,7 +336,7 @@ def assume_not_known_cases(E, p, con, argsv):
             E.merge -= 1
             E.fail_conds = old_fc
         p.assume(z3.Not(I._zb(E.truth(c))))
-        if p.check() == z3.unsat:
+        if p.memo(lambda: p.check() == z3.unsat):
             raise I.PathAbort()
 
 
@@ -336,6 +354,7 @@ class Verifier:
             ob = I.Obligation(name, kind, 'discharged', 'trivial', None, 0.0, list(p.labels))
             rep.obligations.append(ob)
             return ob
+        E.saturate(p.solver.assertions() + [g])
         s = z3.Solver()
         s.set('timeout', self.timeout)
         s.set('random_seed', self.seed)
@@ -406,6 +425,7 @@ class Verifier:
                 argsv[name] = make_param(E, p, name, kind)
             argstore['cur'] = argsv
             pkey = tuple(p.decisions)
+            n_ev0 = len(p.decisions)
             if pkey in pre_cache:
                 # the symbolic parameters have fixed names: what the evaluation of
                 # requires()/expected() on the pre-state added is the same on every path
@@ -416,10 +436,12 @@ class Verifier:
                 p.quants.extend(rec['quants'])
                 p.indices.extend(rec['indices'])
                 for k, v in rec['ghost'].items():
-                    p.ghost.setdefault(k, v)
+                    # per-path caches are copied, never shared between paths
+                    p.ghost.setdefault(k, _copy_cache(v))
                 p.heap = dict(rec['heap'])
                 p.fresh_n = max(p.fresh_n, rec['fresh_n'])
                 p.exp = rec['exp']
+                p.skip_events(rec['events'])
                 if rec['infeasible']:
                     raise I.PathAbort()
             else:
@@ -430,7 +452,7 @@ class Verifier:
                     r = eval_spec(E, req, list(argsv.values()))
                     b = E.truth(r)
                     p.assume(I._zb(b))
-                    if p.check() == z3.unsat:
+                    if p.memo(lambda: p.check() == z3.unsat):
                         infeasible = True
                 if not infeasible:
                     try:
@@ -443,10 +465,10 @@ class Verifier:
                     p.exp = eval_spec(E, exp_fn0, list(argsv.values()))
                 pre_cache[pkey] = {'pc': list(p.pc[n_pc:]), 'qdefs': list(p.qdefs[n_qd:]),
                                    'quants': list(p.quants[n_qu:]), 'indices': list(p.indices[n_ix:]),
-                                   'ghost': dict((k, v) for k, v in p.ghost.items()
+                                   'ghost': dict((k, _copy_cache(v)) for k, v in p.ghost.items()
                                                  if not (isinstance(k, tuple) and k and k[0] in ('mustnot',))),
                                    'heap': dict(p.heap), 'fresh_n': p.fresh_n, 'exp': p.exp,
-                                   'infeasible': infeasible}
+                                   'infeasible': infeasible, 'events': len(p.decisions) - n_ev0}
                 if infeasible:
                     raise I.PathAbort()
             p.heap0 = dict(p.heap)
@@ -503,6 +525,16 @@ class Verifier:
         rep.assumptions = sorted(E.assumptions)
         rep.seconds = time.time() - t0
         return rep
+
+
+def _copy_cache(v):
+    if isinstance(v, dict):
+        return dict(v)
+    if isinstance(v, list):
+        return list(v)
+    if isinstance(v, set):
+        return set(v)
+    return v
 
 
 def _fn(f):
@@ -666,7 +698,7 @@ def verify_lemma(V, E, lem):
         if hyp is not None:
             r = eval_spec(E, hyp, list(argsv.values()))
             p.assume(I._zb(E.truth(r)))
-            if p.check() == z3.unsat:
+            if p.memo(lambda: p.check() == z3.unsat):
                 raise I.PathAbort()
         assume_not_known_cases(E, p, lem, argsv)
         p.heap0 = dict(p.heap)
